@@ -295,6 +295,7 @@ func checkMatch(c *matchCase, in []byte, lens []int, scopes []api.ProtocolName) 
 	var classes []string
 	var failures []failure
 	successes := 0
+	claimed := ""
 	run := func(name string, f func([]byte) string, isSelect bool) {
 		var answers []string
 		pn, st := codec.Call("match", c, func() {
@@ -309,6 +310,7 @@ func checkMatch(c *matchCase, in []byte, lens []int, scopes []api.ProtocolName) 
 		whole := answers[len(answers)-1]
 		if !isSelect && whole == "Success" && strings.HasPrefix(name, "factory:") {
 			successes++
+			claimed += "+" + strings.TrimPrefix(name, "factory:")
 		}
 		final := -1
 		for i, a := range answers {
@@ -338,7 +340,7 @@ func checkMatch(c *matchCase, in []byte, lens []int, scopes []api.ProtocolName) 
 	// two stream factories claiming the same bytes: which one auto-detection picks is map-order
 	// dependent in SelectStreamFactoryProtocol, independent of segmentation -> not judged here
 	if successes > 1 {
-		classes = append(classes, "ambiguous-excluded")
+		classes = append(classes, "ambiguous-excluded", "ambiguous:"+claimed)
 	} else {
 		run("select-all", func(b []byte) string { return selectAnswer(b, nil) }, true)
 		if scopes != nil {
